@@ -118,6 +118,9 @@ const PROBES: &[&str] = &[
     "pixel_probed_outside",
     "big_endian",
     "little_endian",
+    "colour_stream_next_then_for_each",
+    "pixel_stream_for_each",
+    "size_hint_compared_with_observed_end",
 ];
 
 const FAULTS: &[&str] = &["wrong_length_buffer", "stream_drained_past_nominal_end", "adversarial_bytes"];
@@ -376,11 +379,17 @@ fn run_typed<C: SimColor>(sc: &Scenario, opts: &Opts) -> RunOut {
     dev.st.unbounded_ok = true;
     crate::dev::take_hint_breach();
     crate::dev::take_unbounded_abort();
+    crate::dev::take_reach();
     if out.violation.is_none() {
         let spec = DrawableSpec::Image(i.clone());
         let r = guarded(|| crate::workload::draw_spec::<C, _>(&spec, Path::Draw, &mut dev));
         out.sub_evals += 1;
         let endless = crate::dev::take_unbounded_abort();
+        for (i, n) in crate::dev::take_reach().iter().enumerate() {
+            if *n > 0 {
+                out.probes |= probe(["colour_stream_next_then_for_each", "pixel_stream_for_each", "size_hint_compared_with_observed_end"][i]);
+            }
+        }
         match r {
             Err(_) if endless => {
                 out.violation = Some(
@@ -558,7 +567,7 @@ impl Property for C09 {
         "operations_checked"
     }
     fn rule(&self) -> &'static str {
-        "one seeded scenario = ImageRaw of one of 7 raw widths x 2 data orders, size 0..=20 x 0..=12 biased to widths that are not a multiple of the pixels per byte (1 run in 64: a big image with rows longer than 255 pixels/bytes or more than 65535 pixels), seeded bytes (random / all ones / row-tagged); operations: ImageRaw::new with exact and wrong lengths, pixel(p) on the box plus margin plus extreme points, Image::new / with_center draw of the image or of a sub-image chain (inside / overlapping / outside / zero-sized, nested twice) onto a device with seeded box, capability set and discipline; oracle: independent decoder, exact pixel map, stream length == area for every fill_contiguous. distinct = 64-bit hash of the decoded scenario; non-trivial = at least one device pixel expected to be set"
+        "one seeded scenario = ImageRaw of one of 7 raw widths x 2 data orders, size 0..=20 x 0..=12 biased to widths that are not a multiple of the pixels per byte (1 run in 64: a big image with rows longer than 255 pixels/bytes or more than 65535 pixels), seeded bytes (random / all ones / row-tagged); operations: ImageRaw::new with exact and wrong lengths, pixel(p) on the box plus margin plus extreme points, Image::new / with_center draw of the image or of a sub-image chain (inside / overlapping / outside / zero-sized, nested twice) onto a device with seeded box, capability set and discipline; oracle: independent decoder, exact pixel map, stream length == area for every fill_contiguous (consumers: zip either way, take, drain, skip hidden colours with nth, k x next then unbounded for_each), size_hint() agrees with the stream. distinct = 64-bit hash of the decoded scenario; non-trivial = at least one device pixel expected to be set"
     }
     fn assumptions(&self) -> Vec<&'static str> {
         vec![
